@@ -43,6 +43,10 @@ func (x *Exec) instr(fr *Frame, st *State, in ssa.Instruction) {
 		x.store(fr, st, l, x.term(fr, st, v))
 		if v.Clo != nil && l.kind == lCell {
 			fr.cloCells()[l.cell] = v.Clo
+			if fr.cloFrs == nil {
+				fr.cloFrs = map[*ssa.Alloc]*Frame{}
+			}
+			fr.cloFrs[l.cell] = v.CloFr
 		}
 	case *ssa.UnOp:
 		x.unop(fr, st, i)
@@ -104,7 +108,7 @@ func (x *Exec) instr(fr *Frame, st *State, in ssa.Instruction) {
 		x.typeAssert(fr, st, i)
 	case *ssa.MakeClosure:
 		id := x.allocID(st)
-		fr.regs[i] = Val{T: id, Clo: i}
+		fr.regs[i] = Val{T: id, Clo: i, CloFr: fr}
 	case *ssa.MakeSlice:
 		l := x.term(fr, st, x.value(fr, st, i.Len))
 		c := x.term(fr, st, x.value(fr, st, i.Cap))
@@ -233,6 +237,7 @@ func (x *Exec) unop(fr *Frame, st *State, i *ssa.UnOp) {
 		if l.kind == lCell && fr.clo != nil {
 			if c := fr.clo[l.cell]; c != nil {
 				r.Clo = c
+				r.CloFr = fr.cloFrs[l.cell]
 			}
 		}
 		fr.regs[i] = r
